@@ -43,6 +43,15 @@ Fixpoint obj_eqb (a b : pyobj) {struct a} : bool :=
   | _, _ => false
   end.
 
+(* hash(o): a list is unhashable, a tuple is hashable when its items are (set.add / set membership of an unhashable
+   object raises TypeError); the members of a frozenset are hashable by construction *)
+Fixpoint hashable (o : pyobj) : bool :=
+  match o with
+  | OList _ => false
+  | OTuple l => forallb hashable l
+  | _ => true
+  end.
+
 Inductive vresult := VOk | VVoteError | VCandError | VCrash.
 
 (* ---- nominators *)
@@ -121,8 +130,9 @@ Fixpoint ranked_scan (ranks : keyed_bounds) (rank_i : Z) (items : list pyobj)
       if in_bounds (kb_get ranks (rank_i + 1)) (qnat (length l))
       then ranked_scan ranks (rank_i + 1) t (total + length l) (fold_left (fun s o => add_set o s) l cands)
       else (VVoteError, total, cands)
-  | OList _ :: _ => (VCrash, total, cands)       (* set.add(list): TypeError: unhashable *)
-  | o :: t => ranked_scan ranks (rank_i + 1) t (total + 1) (add_set o cands)
+  | o :: t =>
+      if hashable o then ranked_scan ranks (rank_i + 1) t (total + 1) (add_set o cands)
+      else (VCrash, total, cands)                (* set.add(list) / set.add((.., [..])): TypeError: unhashable *)
   end.
 
 Definition validate_ranked (nm : nominator) (total_b : bounds) (ranks : keyed_bounds) (v : pyobj) : vresult :=
